@@ -157,6 +157,9 @@ class Parallelogram(Domain):
 
 
 class ParallelogramBoundary(BoundaryDomain):
+    # absolute tolerance for comparing barycentric coordinates with 0 and 1;
+    # float32 round-off makes them inexact for every non axis-aligned shape
+    bary_tol = 1.0e-5
 
     def __init__(self, domain):
         assert isinstance(domain, Parallelogram)
@@ -174,9 +177,10 @@ class ParallelogramBoundary(BoundaryDomain):
         return torch.logical_or(x_close, y_close)
 
     def _bary_coords_close_to_0_or_1(self, bary_coord1, bary_coord2):
-        between_0_1 = torch.logical_and(0 <= bary_coord2, bary_coord2 <= 1)
-        close_to_0 = torch.isclose(bary_coord1, torch.tensor(0.0))
-        close_to_1 = torch.isclose(bary_coord1, torch.tensor(1.0))
+        tol = self.bary_tol
+        between_0_1 = torch.logical_and(-tol <= bary_coord2, bary_coord2 <= 1 + tol)
+        close_to_0 = torch.isclose(bary_coord1, torch.tensor(0.0), atol=tol)
+        close_to_1 = torch.isclose(bary_coord1, torch.tensor(1.0), atol=tol)
         return torch.logical_and(torch.logical_or(close_to_1, close_to_0), between_0_1)
 
     def _get_volume(self, params=Points.empty(), device="cpu"):
@@ -278,8 +282,13 @@ class ParallelogramBoundary(BoundaryDomain):
     def _add_local_normal_vector(
         self, normals, bary_x, bary_y, normal_dir_1, normal_dir_2, i
     ):
-        y_close_i = torch.where(torch.isclose(bary_y, torch.tensor(i)), 2 * i - 1, 0.0)
-        x_close_i = torch.where(torch.isclose(bary_x, torch.tensor(i)), 2 * i - 1, 0.0)
+        tol = self.bary_tol
+        y_close_i = torch.where(
+            torch.isclose(bary_y, torch.tensor(i), atol=tol), 2 * i - 1, 0.0
+        )
+        x_close_i = torch.where(
+            torch.isclose(bary_x, torch.tensor(i), atol=tol), 2 * i - 1, 0.0
+        )
         normals += normal_dir_1 * y_close_i
         normals += normal_dir_2 * x_close_i
 
